@@ -22,6 +22,7 @@ import (
 
 	"verif/harness/bx"
 	"verif/harness/model"
+	"verif/harness/mon"
 	"verif/harness/vk"
 )
 
@@ -41,6 +42,7 @@ type c15Case struct {
 	StatsInCB  bool // sub-workload: Stats()/MemoryUsed() from the event call-back
 	SegVer     int  // 2 = the ice v2 probe (reported separately)
 	RaceLogDir string
+	CloseGate  string // "": close whenever; else hold a background goroutine at this point, start Close, let it go
 }
 
 type c15Result struct {
@@ -87,6 +89,8 @@ func c15Child(in json.RawMessage) (interface{}, error) {
 			}
 		})
 	}
+	mon.SetYieldGate(rg.Sched.GateOnly)
+	defer mon.SetYieldGate(nil)
 	w, err := bluge.OpenWriter(rg.Cfg)
 	if err != nil {
 		return nil, err
@@ -187,9 +191,44 @@ func c15Child(in json.RawMessage) (interface{}, error) {
 	if cs.Seed%3 != 0 {
 		rwg.Wait() // otherwise readers are still searching while the writer closes
 	}
+	// Close placed inside a background step: the goroutine is held at the step, Close is started (it
+	// signals the background goroutines and waits for them), then the goroutine is let go and finds the
+	// writer closing half-way through its hand-over
+	var gateHold *mon.Hold
+	if cs.CloseGate != "" {
+		pred := map[string]func(p mon.Point) bool{
+			// the merger just before it hands its merge to the introducer; in the yield build instead the
+			// introducer at any yield point inside introduceMerge (the merge is handed over, not yet answered)
+			"merge-intro": func(p mon.Point) bool {
+				if mon.YieldEnabled {
+					return strings.HasPrefix(p.Name, "y:") && strings.Contains(p.Stack, ").introduceMerge")
+				}
+				return p.Name == "ev:merge.intro.start"
+			},
+			"persist-intro": func(p mon.Point) bool {
+				return strings.HasPrefix(p.Name, "y:") && strings.Contains(p.Stack, ").introducePersist")
+			},
+			"merge-begin": func(p mon.Point) bool { return p.Name == "merge.begin" && p.Role == "merger" },
+			"persist-snp": func(p mon.Point) bool { return p.Name == "persist.begin" && p.Kind == ".snp" },
+			"load-seg":    func(p mon.Point) bool { return p.Name == "load.end" && p.Kind == ".seg" },
+		}[cs.CloseGate]
+		if pred != nil {
+			gateHold = rg.Sched.HoldNth(0, pred)
+			if !gateHold.Reached(1500 * time.Millisecond) {
+				gateHold.Release()
+				gateHold = nil
+			} else {
+				op("close_inside_" + cs.CloseGate)
+			}
+		}
+	}
 	closeStart := time.Now()
 	closed := make(chan error, 1)
 	go func() { closed <- w.Close() }()
+	if gateHold != nil {
+		time.Sleep(20 * time.Millisecond)
+		gateHold.Release()
+	}
 	select {
 	case err := <-closed:
 		if err != nil {
@@ -201,7 +240,12 @@ func c15Child(in json.RawMessage) (interface{}, error) {
 		time.Sleep(3 * time.Second)
 		d2 := goroutineDump()
 		res.CloseStuck = d1
-		res.Deadlock = blockedSignature(d1) == blockedSignature(d2) && !strings.Contains(d1, "[running]:\nmain") && !strings.Contains(blockedSignature(d1), "runnable")
+		// deadlock of the shutdown: Close and every background goroutine of the writer are blocked on
+		// channels / locks / wait groups, in the same place, in two dumps three seconds apart (goroutines
+		// of the harness - readers that are still searching - do not matter for this)
+		s1, ok1 := writerGoroutines(d1)
+		s2, ok2 := writerGoroutines(d2)
+		res.Deadlock = ok1 && ok2 && s1 == s2 && s1 != ""
 		return res, nil
 	}
 	rwg.Wait()
@@ -237,6 +281,48 @@ func goroutineDump() string {
 	var sb strings.Builder
 	_ = pprof.Lookup("goroutine").WriteTo(&sb, 2)
 	return sb.String()
+}
+
+// writerGoroutines: signature (state + top frames) of the goroutines that run code of the index writer
+// (Close, introducer, persister, merger, analysis workers are excluded); ok is false when one of them is
+// not blocked on a channel, lock or wait group.
+func writerGoroutines(dump string) (sig string, ok bool) {
+	ok = true
+	var l []string
+	for _, blk := range strings.Split(dump, "\n\n") {
+		if !strings.HasPrefix(blk, "goroutine ") || !strings.Contains(blk, "blugelabs/bluge/index.(*Writer).") || strings.Contains(blk, ".analysisWorker") {
+			continue
+		}
+		lines := strings.Split(blk, "\n")
+		state := lines[0]
+		if i := strings.Index(state, "["); i >= 0 {
+			state = strings.TrimSuffix(state[i+1:], "]:")
+		}
+		if i := strings.Index(state, ","); i >= 0 {
+			state = state[:i] // drop "N minutes"
+		}
+		switch state {
+		case "chan send", "chan receive", "select", "semacquire", "sync.WaitGroup.Wait", "sync.Mutex.Lock", "sync.RWMutex.Lock", "sync.RWMutex.RLock", "sync.Cond.Wait", "chan send (nil chan)", "chan receive (nil chan)", "select (no cases)":
+		default:
+			ok = false
+		}
+		var frames []string
+		for _, ln := range lines[1:] {
+			if strings.HasPrefix(ln, "\t") || strings.HasPrefix(ln, "created by") {
+				continue
+			}
+			if i := strings.LastIndex(ln, "("); i > 0 {
+				ln = ln[:i]
+			}
+			frames = append(frames, ln)
+			if len(frames) == 4 {
+				break
+			}
+		}
+		l = append(l, state+"@"+strings.Join(frames, "<"))
+	}
+	sort.Strings(l)
+	return strings.Join(l, ";"), ok
 }
 
 var goroutineHeader = regexp.MustCompile(`(?m)^goroutine \d+ \[([^\]]+)\]:\n([^\n]+)`)
@@ -318,7 +404,8 @@ func runC15(c *vk.Ctx) {
 	var cases []interface{}
 	for i := 0; i < n; i++ {
 		cases = append(cases, c15Case{Seed: vk.SubSeed(c.Seed, fmt.Sprintf("c15-%d", i)), Dir: c.TempDir("c15-"), Writers: 2 + i%3, Readers: 1 + i%3, Procs: []int{1, 2, 4, 16}[i%4],
-			Unsafe: i%4 == 3, MemMerge: i%2 == 0, StatsInCB: i%5 == 4, RaceLogDir: logDir})
+			Unsafe: i%4 == 3, MemMerge: i%2 == 0, StatsInCB: i%5 == 4, RaceLogDir: logDir,
+			CloseGate: []string{"", "merge-intro", "merge-begin", "persist-intro", "persist-snp", "load-seg", "merge-intro"}[i%7]})
 	}
 	// the same workload on the second bundled segment format (two probe runs)
 	for i := 0; i < 2; i++ {
